@@ -189,10 +189,18 @@ def gen_case(rng, permit, n_steps):
         return "plain"
 
     def gen_op():
-        k = rng.choices(["regU", "unregU", "regA", "unregA", "regS", "unregS", "regH", "unregH", "reinit"],
-                        [5, 3, 3, 2, 3, 2, 2, 1.5, 0.12])[0]
+        k = rng.choices(["regU", "unregU", "regA", "unregA", "regS", "unregS", "regH", "unregH", "reinit", "uboth"],
+                        [5, 3, 3, 2, 3, 2, 2, 1.5, 0.12, 0.4])[0]
         if k == "reinit":
             return ["reinit"]
+        if k == "uboth":
+            live = list(led.u.items())
+            if live and rng.random() < 0.7:
+                (p, n), (oc, _oi, _of) = rng.choice(live)
+                v = _comp(rng, oc)
+            else:
+                v, p, n = _comp(rng), related_iface(), rng.choice(names)
+            return ["uboth", rng.random() < 0.5, v, p, n, rng.choice([1, 2, 1000])]
         if k == "regU":
             live = list(led.u.items())
             if live and rng.random() < 0.45:
@@ -346,6 +354,8 @@ def gen_case(rng, permit, n_steps):
     # falsy components (bool(c) is False): an attribute of the implementation's objects only
     r = rng.random()
     world["falsy"] = [] if r < 0.3 else sorted(POOL) if r < 0.45 else [v for v in sorted(POOL) if rng.random() < 0.45]
+    r = rng.random()
+    world["falsy_factories"] = [] if r < 0.4 else [1, 2, 1000] if r < 0.7 else [f for f in (1, 2, 1000) if rng.random() < 0.5]
     world["steps"] = steps
     world["permit"] = permit
     return world
@@ -384,6 +394,8 @@ def c_op(op):
     k = op[0]
     if k == "reinit":
         return "Reinit"
+    if k == "uboth":
+        return "(UtilityBoth %s %s %d %d)" % (C.cbool(op[1]), c_v(op[2]), op[3], op[4])
     if k == "regU":
         return "(RegUtility %s %d %d %d %s)" % (c_v(op[1]), op[2], op[3], op[4], c_onat(op[5]))
     if k == "unregU":
@@ -530,6 +542,9 @@ def _py_op(op):
     k = op[0]
     if k == "reinit":
         return "reg.__init__('c16')"
+    if k == "uboth":
+        return "reg.%sregisterUtility(%s, S%d, %s, factory=F%d)   # component and factory together" % (
+            "un" if op[1] else "", v(op[2]), op[3], nm(op[4]), op[5])
     if k == "regU":
         return "reg.registerUtility(%s, S%d, %s, %s)%s" % (v(op[1]), op[2], nm(op[3]), inf(op[4]),
                                                            "" if op[6] == "plain" else "   # style=%s factory=%r" % (op[6], op[5]))
@@ -553,6 +568,7 @@ def replay_text(case, obs, mode):
              "# S<k>: specification number k of the case's world (0 = Interface); c<v>: component/factory with identity v,",
              "# equality class %r, unhashable identities %r, falsy identities %r"
              % (POOL, case.get("unhashable", []), case.get("falsy", [])),
+             "# falsy factory= objects: %r" % (case.get("falsy_factories", []),),
              "reg = Components('c16')"]
     for s, o in zip(case["steps"], obs.get("steps", [])):
         lines.append("%s   # -> %r events=%r" % (_py_op(s["op"]), o.get("ret"), o.get("events")))
